@@ -30,8 +30,14 @@ fn Wrap(children: Children) -> impl IntoView {
     view! { <section>{children()}</section> }
 }
 
+/// a second component: forwards spread attributes to its own root element, which has attributes of its own
+#[component]
+fn Card(children: Children) -> impl IntoView {
+    view! { <article role="group" class="card"><Wrap>{children()}</Wrap></article> }
+}
+
 mod templates {
-    use super::Wrap;
+    use super::{Card, Wrap};
     use futures::StreamExt;
     use leptos::prelude::*;
     use leptos::tachys::ssr::StreamBuilder;
@@ -130,6 +136,44 @@ fn den_attrs(attrs: &[TAttr]) -> Vec<(String, String)> {
 
 /// `esc`: the strings here are children of an element that escapes its children; there an empty string
 /// stands for one space (leptos keeps a text node for it, on both paths since fix-c18-4)
+/// attributes spread onto a component's root element: ordinary ones in order, the class pieces and the style
+/// declarations in SOURCE order (the macro sorts class/style first only on elements)
+fn spread_attrs(attrs: &[TAttr]) -> Vec<(String, String)> {
+    let mut out = vec![];
+    let mut cls = String::new();
+    let mut st = String::new();
+    for a in attrs {
+        match a {
+            TAttr::Plain(_, n, v) => out.push((n.clone(), v.clone())),
+            TAttr::Flag(n) | TAttr::BoolDyn(n, true) | TAttr::LitBool(n, true) => out.push((n.clone(), String::new())),
+            TAttr::LitVal(n, v) => out.push((n.clone(), lit_rendered(v))),
+            TAttr::Cls(_, v) => {
+                cls.push(' ');
+                cls.push_str(v);
+            }
+            TAttr::ClsToggle(n, true) | TAttr::ClsTuple(n, true) => {
+                cls.push(' ');
+                cls.push_str(n);
+            }
+            TAttr::Style(_, v) => {
+                st.push_str(v);
+                st.push(';');
+            }
+            TAttr::StyleKV(_, n, v) => st.push_str(&format!("{n}:{v};")),
+            _ => {}
+        }
+    }
+    let toks = class_tokens(cls.trim());
+    if !toks.is_empty() {
+        out.push(("class".into(), toks.join(" ")));
+    }
+    let st = style_norm(&st);
+    if !st.is_empty() {
+        out.push(("style".into(), st));
+    }
+    out
+}
+
 fn den(nodes: &[Tmpl], esc: bool, out: &mut Vec<Tree>) {
     for n in nodes {
         match n {
@@ -147,8 +191,21 @@ fn den(nodes: &[Tmpl], esc: bool, out: &mut Vec<Tree>) {
                 den(kids, true, &mut k);
                 out.push(Tree::Elem { tag: "section".into(), attrs: vec![], kids: k });
             }
-            // a comment is not part of the view; the doctype is not part of the tree
-            Tmpl::Comment(_) | Tmpl::Doctype => {}
+            // a comment is not part of the view; the doctype is not part of the tree; a unit block renders no node
+            Tmpl::Comment(_) | Tmpl::Doctype | Tmpl::Unit(_) => {}
+            Tmpl::CompA(card, attrs, kids) => {
+                let mut k = vec![];
+                den(kids, true, &mut k);
+                if *card {
+                    // <article role="group" class="card"> + the spread attributes, around the <section>
+                    let mut all = vec![TAttr::Plain(false, "role".into(), "group".into()), TAttr::Cls(false, "card".into())];
+                    all.extend(attrs.iter().cloned());
+                    let inner = Tree::Elem { tag: "section".into(), attrs: vec![], kids: k };
+                    out.push(Tree::Elem { tag: "article".into(), attrs: spread_attrs(&all), kids: vec![inner] });
+                } else {
+                    out.push(Tree::Elem { tag: "section".into(), attrs: spread_attrs(attrs), kids: k });
+                }
+            }
         }
     }
 }
@@ -235,7 +292,7 @@ fn rename_svg(h: &str) -> String {
 fn noscript_flags(nodes: &[Tmpl]) -> Vec<bool> {
     fn has_elem(nodes: &[Tmpl]) -> bool {
         nodes.iter().any(|n| match n {
-            Tmpl::Elem(..) | Tmpl::Comp(_) => true,
+            Tmpl::Elem(..) | Tmpl::Comp(_) | Tmpl::CompA(..) => true,
             Tmpl::Frag(k) => has_elem(k),
             _ => false,
         })
@@ -249,7 +306,7 @@ fn noscript_flags(nodes: &[Tmpl]) -> Vec<bool> {
                     }
                     go(kids, out);
                 }
-                Tmpl::Frag(k) | Tmpl::Comp(k) => go(k, out),
+                Tmpl::Frag(k) | Tmpl::Comp(k) | Tmpl::CompA(_, _, k) => go(k, out),
                 _ => {}
             }
         }
@@ -542,6 +599,22 @@ fn node_tags(nodes: &[Tmpl], top: bool, in_inert: bool, escape: bool, t: &mut BT
             }
             Tmpl::Comment(_) => {
                 t.insert("comment".into());
+            }
+            Tmpl::Unit(k) => {
+                t.insert(format!("unit-block{k}"));
+            }
+            Tmpl::CompA(card, attrs, kids) => {
+                t.insert(if *card { "comp-attrs-card".into() } else { "comp-attrs".into() });
+                for a in attrs {
+                    if let TAttr::Plain(_, n, _) | TAttr::LitVal(n, _) = a {
+                        t.insert(match n.matches('-').count() {
+                            0 => "spread-word".into(),
+                            1 => "spread-dash1".into(),
+                            _ => "spread-dashN".to_string(),
+                        });
+                    }
+                }
+                node_tags(kids, true, false, true, t);
             }
             Tmpl::Doctype => {
                 t.insert("doctype".into());
